@@ -72,7 +72,7 @@ CLAIMED = {
          "vendor, empty continuation words: the decoder returns exactly the fold of the field semantics over the structurally computed "
          "aligned offsets), c09_chain_extends_single, c09_chain_decidable. The executable chain Spec is compared with the library on "
          "generated chains."
-         " Code level: c09_code_rtap_switch_field / _refines_spec / _header_guards / _loop_exit - every turn of the translated field switch reads the little-endian values at the field's sub-offsets and refines the Spec's per-field decoder (the iterator routines themselves, which contain goto, stay tied by the correspondence). The iterator's two routines (goto, pointer increments: not executed) are tied per named site: c09_code_rtnext_sites_covered / c09_code_rtinit_sites_covered - all 60 + 26 conditions, assigned and returned values evaluate to the model's formulas; both switches' shapes. c09_code_rtinit_refines_model - ieee80211_radiotap_iterator_init AS TRANSLATED is executable (pointer increments scaled by the pointee size, the while loop an SLoop) and, for every buffer with only the buffer readable, refuses exactly what Model/Radiotap.v rt_init refuses and otherwise leaves the model's iterator in the members (loop over the extended present words by induction); only iterator_next (goto) remains tied per site. iterator_next AS TRANSLATED is executable by Base/CGoto.v's execg (exec + forward gotos; find_ns inlined): c09_code_rtnext_goto_landing (where goto next_entry lands, computed from the body), c09_code_rtnext_enoent, c09_code_rtnext_absent_pass (the whole pass over an absent argument = the model's shift_next, for all values); c09_code_rtnext_field_pass (the pass that reports a field: alignment loaded from the table, padding, bounds, falls into the label, returns the hit at the aligned offset), c09_code_rtnext_ns_reset_pass, c09_code_rtnext_ext_pass (next present word loaded at _next_bitmap); c09_code_rtnext_undefined_field, c09_code_rtnext_unknown_ns_skip; the translated iterator is RUN by the kernel against the model on seven concrete headers (Example c09_code_rtnext_runs_agree) and on 120 sampled radiotap cases of every run (lib/xcheck.py).",
+         " Code level: c09_code_rtap_switch_field / _refines_spec / _header_guards / _loop_exit - every turn of the translated field switch reads the little-endian values at the field's sub-offsets and refines the Spec's per-field decoder (the iterator routines themselves, which contain goto, stay tied by the correspondence). The iterator's two routines (goto, pointer increments: not executed) are tied per named site: c09_code_rtnext_sites_covered / c09_code_rtinit_sites_covered - all 60 + 26 conditions, assigned and returned values evaluate to the model's formulas; both switches' shapes. c09_code_rtinit_refines_model - ieee80211_radiotap_iterator_init AS TRANSLATED is executable (pointer increments scaled by the pointee size, the while loop an SLoop) and, for every buffer with only the buffer readable, refuses exactly what Model/Radiotap.v rt_init refuses and otherwise leaves the model's iterator in the members (loop over the extended present words by induction); only iterator_next (goto) remains tied per site. iterator_next AS TRANSLATED is executable by Base/CGoto.v's execg (exec + forward gotos; find_ns inlined): c09_code_rtnext_goto_landing (where goto next_entry lands, computed from the body), c09_code_rtnext_enoent, c09_code_rtnext_absent_pass (the whole pass over an absent argument = the model's shift_next, for all values); c09_code_rtnext_field_pass (the pass that reports a field: alignment loaded from the table, padding, bounds, falls into the label, returns the hit at the aligned offset), c09_code_rtnext_ns_reset_pass, c09_code_rtnext_ext_pass (next present word loaded at _next_bitmap); c09_code_rtnext_undefined_field, c09_code_rtnext_unknown_ns_skip, c09_code_rtnext_vendor_pass - every kind of pass of the loop has a whole-pass theorem; the induction composing them into rt_next is open; the translated iterator is RUN by the kernel against the model on seven concrete headers (Example c09_code_rtnext_runs_agree) and on 120 sampled radiotap cases of every run (lib/xcheck.py).",
          "Rocq refinement proof by induction over the field list; differential correspondence; theorems about the C bodies translated from the source on every run (Gen/Sites.v)"),
  "C10": ("Theorems c10_layout (for ALL 2^11 selections of carried fields and all values the generator emits exactly the rendered header), "
          "c10_valid_header (version 0, length field = bytes produced, present word, every field little-endian at its naturally aligned "
